@@ -58,8 +58,14 @@ CHECKS = {
             "enough fuel; the DPDA constructor accepts a well-formed table iff no configuration has two applicable moves (only "
             "NondeterminismError otherwise); on such a table the k-th DPDA configuration is the unique configuration reachable in k moves, "
             "the DPDA verdict is the textbook verdict, only return/RejectionException end the run, and DPDA and NPDA verdicts coincide on "
-            "every pair of fuels on which both return. Termination is not proved (it does not hold in general): Err Fuel is excluded by "
-            "the statements, as the property's quantifier allows. Model tied to the code by exact comparison of every yielded "
+            "every pair of fuels on which both return. Termination does not hold in general (Err Fuel is excluded by those statements), but "
+            "fuel sufficiency is proved for tables whose empty-string moves cannot run forever under a decidable condition: eps_ranked rank N "
+            "(every empty-string move pops without pushing, or replaces the top by one symbol and moves to a state of strictly larger rank; "
+            "eps_shrinking = only pops). Then every move strictly decreases an explicit potential, no run on w has "
+            "|w|*(max_push+1)*(N+1) + 2*(N+1) moves or more, and with that much fuel both readers return Ok true / Ok false, exactly "
+            "according to textbook acceptance (C02_npda_total_for_ranked / _shrinking, C02_dpda_total_for_ranked / _shrinking). The harness "
+            "finds a ranking on each generated table, has the model confirm eps_ranked and checks that the implementation's generator ends "
+            "within the proved bound. Model tied to the code by exact comparison of every yielded "
             "configuration (set), the way the generator ends, accepts_input, the constructor's exception kind, and DPDA-vs-NPDA verdicts "
             "on the implementation alone; implementation always run under a budget of yields.",
             "The model follows DPDA.read_input_stepwise AFTER the repair of DESIGN section 8 row 1 (acceptance test on the start "
